@@ -55,6 +55,13 @@ prop('C16', harness='ductmon', floor=2000, batches={'quick': 4, 'thorough': 16},
      assumptions=['each intermediate morphism value is used once (the property\'s precondition: combinators mutate the shared AST)',
                   'expected type names are duct.TypeOf of the instantiated type parameters, as the property states'])
 
+RACE_MODES = {'quick': ['race'], 'thorough': ['race']}
+PROCS = [4, 2, 8, 1, 4, 2, 16, 3]   # GOMAXPROCS of child i (schedule diversity; also keeps the stop-the-world census cheap)
+ENV_ASSUME = ['virtual time and quiescence come from testing/synctest (go1.26.8); library-internal schedules and select choices are whatever the runtime does (sampled, not enumerated)',
+              'user functions given to the stages are pure functions of the element id (plus virtual sleeps)']
+prop('C06', harness='envsched', kind='test', modes=RACE_MODES, procs=PROCS, floor=1000, batches={'quick': 8, 'thorough': 16}, assumptions=ENV_ASSUME)
+prop('C05', harness='envsched', kind='test', modes=RACE_MODES, procs=PROCS, floor=1000, batches={'quick': 8, 'thorough': 16}, assumptions=ENV_ASSUME)
+
 # ---------------------------------------------------------------------------
 
 def log(*a):
@@ -210,6 +217,9 @@ def run_child(ctx, pid, binary, kind, mode, tier, seed, batch, nbatch, wd, extra
             env['VERIF_RESUME_AFTER'] = resume
         if extra_env:
             env.update(extra_env)
+        if PROPS[pid].get('procs'):
+            pr = PROPS[pid]['procs']
+            env['GOMAXPROCS'] = str(pr[batch % len(pr)])
         cmd = [binary] + (args or [])
         if kind == 'test':
             cmd += ['-test.timeout=0', '-test.count=1']
